@@ -393,7 +393,7 @@ func (l *Logger) ShowSummary(args []string) {
 		for i := range argv {
 			argv[i] = shquote(argv[i])
 		}
-		return strings.Join(argv, " ")
+		return escapePrintable(strings.Join(argv, " "))
 	}
 
 	if l.explanationsAvailable && !l.Opts.Explain {
